@@ -341,6 +341,19 @@ struct Pipes {
     a: VecDeque<u8>, // controller -> bridge
     b: VecDeque<u8>, // bridge -> controller
     bridge_log: Vec<String>,
+    /// WBS: every read and write call fragments or is interrupted according to a fixed cyclic pattern
+    frag: bool,
+    calls: [usize; 4], // bridge read, bridge write, controller read, controller write
+}
+/// (bytes this call may transfer, or None = ErrorKind::Interrupted)
+fn frag_read(n: usize) -> Option<usize> {
+    [Some(1), None, Some(3), Some(1), Some(6), None, None, Some(2)][n % 8]
+}
+fn frag_write(n: usize) -> Option<usize> {
+    [Some(1), None, Some(4), Some(2), None, Some(10)][n % 6]
+}
+fn interrupted() -> io::Error {
+    io::Error::new(io::ErrorKind::Interrupted, "scheduled interrupt")
 }
 struct OdkPort {
     sh: Rc<RefCell<Pipes>>,
@@ -349,8 +362,16 @@ struct OdkPort {
 impl Read for OdkPort {
     fn read(&mut self, buf: &mut [u8]) -> io::Result<usize> {
         let mut sh = self.sh.borrow_mut();
+        let mut limit = buf.len();
+        if sh.frag && !sh.a.is_empty() {
+            sh.calls[0] += 1;
+            match frag_read(sh.calls[0]) {
+                None => return Err(interrupted()),
+                Some(n) => limit = limit.min(n),
+            }
+        }
         let mut k = 0;
-        while k < buf.len() {
+        while k < limit {
             match sh.a.pop_front() {
                 Some(x) => {
                     buf[k] = x;
@@ -367,8 +388,17 @@ impl Read for OdkPort {
 }
 impl Write for OdkPort {
     fn write(&mut self, buf: &[u8]) -> io::Result<usize> {
-        self.sh.borrow_mut().b.extend(buf.iter());
-        Ok(buf.len())
+        let mut sh = self.sh.borrow_mut();
+        let mut n = buf.len();
+        if sh.frag && n > 0 {
+            sh.calls[1] += 1;
+            match frag_write(sh.calls[1]) {
+                None => return Err(interrupted()),
+                Some(k) => n = n.min(k),
+            }
+        }
+        sh.b.extend(buf[..n].iter());
+        Ok(n)
     }
     fn flush(&mut self) -> io::Result<()> {
         Ok(())
@@ -423,8 +453,16 @@ struct CtrlPort {
 impl Read for CtrlPort {
     fn read(&mut self, buf: &mut [u8]) -> io::Result<usize> {
         let mut sh = self.sh.borrow_mut();
+        let mut limit = buf.len();
+        if sh.frag && !sh.b.is_empty() {
+            sh.calls[2] += 1;
+            match frag_read(sh.calls[2]) {
+                None => return Err(interrupted()),
+                Some(n) => limit = limit.min(n),
+            }
+        }
         let mut k = 0;
-        while k < buf.len() {
+        while k < limit {
             match sh.b.pop_front() {
                 Some(x) => {
                     buf[k] = x;
@@ -441,7 +479,19 @@ impl Read for CtrlPort {
 }
 impl Write for CtrlPort {
     fn write(&mut self, buf: &[u8]) -> io::Result<usize> {
-        self.sh.borrow_mut().a.extend(buf.iter());
+        let mut n = buf.len();
+        {
+            let mut sh = self.sh.borrow_mut();
+            if sh.frag && n > 0 {
+                sh.calls[3] += 1;
+                match frag_write(sh.calls[3]) {
+                    None => return Err(interrupted()),
+                    Some(k) => n = n.min(k),
+                }
+            }
+            sh.a.extend(buf[..n].iter());
+        }
+        let buf = &buf[..n];
         if buf.contains(&b'\n') {
             // a complete line is on the wire: let the bridge handle it
             let r = guarded(|| self.odk.borrow_mut().process_message());
@@ -690,7 +740,7 @@ pub fn eval_io_case(t: &[&str]) -> Option<String> {
             let obs_all: Vec<String> = (0..k).map(|i| obs(b.sign(i))).collect();
             Some(format!("{} | {} | {} | {}", outs.join(" ; "), out_hex, rem_hex, obs_all.join("/")))
         }
-        "WB" => {
+        "WB" | "WBS" => {
             let k: usize = t[1].parse().unwrap();
             let (signs, rest) = parse_signs(k, &t[2..]);
             let (prior, ops) = split_at("|", rest);
@@ -701,7 +751,7 @@ pub fn eval_io_case(t: &[&str]) -> Option<String> {
                     return Some("PANIC-PRIOR".to_string());
                 }
             }
-            let sh = Rc::new(RefCell::new(Pipes { a: VecDeque::new(), b: VecDeque::new(), bridge_log: vec![] }));
+            let sh = Rc::new(RefCell::new(Pipes { a: VecDeque::new(), b: VecDeque::new(), bridge_log: vec![], frag: t[0] == "WBS", calls: [0; 4] }));
             let odk = match Odk::try_new(OdkPort { sh: sh.clone(), settings: default_settings() }, SharedVBus(vbus.clone())) {
                 Ok(o) => Rc::new(RefCell::new(o)),
                 Err(_) => return Some("ER SETUP".to_string()),
